@@ -89,6 +89,7 @@ class QGen:
         self.links = links or ["foo", "a_b", "sub/prj", "notes"]
         self.max_depth = max_depth
         self.date_pool = date_pool
+        self.desc_syms = DESC_SYMS
         self.str_values = str_values or STR_VALUES
         self.int_values = int_values or INT_VALUES
         self.date_values = date_values or DATE_VALUES
@@ -189,7 +190,7 @@ class QGen:
                 if r < 0.65:
                     part = rng.choice(self.desc_words)
                 else:
-                    part = rng.choice(DESC_SYMS)
+                    part = rng.choice(self.desc_syms)
                 # keep tokens apart that would glue into a different token
                 if w and (w[-1].isalnum() or w[-1] == "_") and (part[0].isalnum() or part[0] == "_"):
                     part = rng.choice([".", "-", "/", "%", "\\"]) + part
